@@ -546,6 +546,8 @@ def _proj(prop, line):
         return f"F={F}"
     if prop == "C14":
         return f"T={T} L={L} E={[e for e in E if not e.startswith('ctxdone')]}" + o["rest"]
+    if prop == "C15":
+        return ""       # the deterministic worlds serve C15 only as a search for deadlocks (HANG lines) and panics
     if prop == "C16":
         return f"D={[d for d in D if any(x in d for x in ('.recv:', '.decode:', '.send:', '.invoke:'))]} F={[f for f in F if kind(f) == 'close']}"
     if prop == "C18":
@@ -824,7 +826,7 @@ PROPS = {
     "C15": {
         "lean_targets": ["Proofs.Props.C15"],
         "prop_files": ["Proofs/Props/C15.lean"],
-        "families": [race_family("C15"), META("C15")],
+        "families": [race_family("C15"), META("C15"), SWORLD("C15"), CWORLD("C15"), W1("C15")],
         "needs_race": True,
         "trusted_base": ["syntactic lock/access extractor /verif/harness/extract/locks.go (go/ast; intra- and inter-procedural held-lock sets)",
                          "hand-written protections table in Proofs/Props/C15.lean (DESIGN.md appendix G)",
